@@ -128,17 +128,14 @@ def clash_programs():
 
 
 def exe_path(prog):
-    import hashlib
-    src = prog.source()
-    h = hashlib.sha256((prog.crate + "\n" + src).encode()).hexdigest()[:12]
-    return os.path.join(vp.CACHE, "e2e", prog.crate + "-" + h, "exe")
+    return os.path.join(P.crate_dir(prog, vp.CACHE)[0], "exe")
 
 
 def build_then_run(progs):
     def runner(st, hbin):
         with vp.Lock("cargo-e2e"):
             with ThreadPoolExecutor(max_workers=4) as ex:
-                res = list(ex.map(lambda p: P.build_crate(p, vp.CACHE, vp.REPO), progs))
+                res = list(ex.map(lambda p: P.build_crate(p, vp.CACHE, vp.REPO, target=vp.TARGET), progs))
         failed = {exe_path(p): log for p, (exe, log) in zip(progs, res) if exe is None}
         rc, lines, err, _ = vp.run_lines(hbin, st.mode, st.cases, st.impl_timeout)
         out = []
